@@ -7,3 +7,23 @@ chk("C11", "exploration", "exhaustive enumeration + online reference-codec oracl
     "Trusted: the reference codec in drivers/vh.c (cross-checked against Python's base64 in every run), gcc sanitizers. "
     "Text with interior '=' and non-canonical trailing bits is unjudged (statement silent).",
     "DESIGN.md 3/C11")
+chk("C02", "exploration", "exhaustive configuration-matrix enumeration + table-model monitor + primitive hook, under ASan/UBSan",
+    "The finite matrix provider x route (setkey / callback variants) x configured alg (16) x key (absent + every family) x key alg "
+    "attribute (absent, every name, unknown) x public/private x header alg variant (35) x signature kind (empty, garbage, valid, "
+    "HMAC under empty / public-PEM / zero keys) is enumerated (thorough: completely; quick: reduced axes), each setkey/verify/"
+    "generate call is logged at the API boundary and judged offline by a 40-line table model; the LIBJWT_VERIF hook shows which "
+    "alg/key actually reached each crypto primitive.",
+    "Trusted: OpenSSL EVP as reference signer/verifier, the table model in monitors/policy_model.py. INVAL-involving setkey "
+    "returns are unjudged. Providers not compiled (MbedTLS) are not covered.", "DESIGN.md 3/C02")
+chk("C03", "exploration", "exhaustive configuration x token-shape enumeration + predicate monitor under ASan/UBSan",
+    "Every checker/builder configuration (5 routes x explicit alg x key x key alg attribute x public/private) is crossed with "
+    "every token shape (35 header-alg variants x 7 third-segment shapes); the monitor asserts the four clauses of the statement "
+    "on each logged call and requires positive controls (alg-none accepted key-less, signed tokens accepted/produced).",
+    "Trusted: harness token builder/decoder. A callback that withdraws a key is unjudged.", "DESIGN.md 3/C03")
+chk("C09", "exploration", "exhaustive key-size x algorithm enumeration + floor monitor + primitive hook under ASan/UBSan",
+    "oct keys of every length 0-160 bytes (quick: 15 boundary lengths), RSA moduli 512-4096 incl. 2047/2048/2049 (quick: 1024, "
+    "2047, 2048), all four EC curves against all ES algs, Ed25519/Ed448/X25519, each for generate and for verify of a token the "
+    "harness signed with that very key, via explicit alg and via key alg, by setkey and by callback, on both providers; the "
+    "monitor asserts both directions (below floor never succeeds; at/above floor works).",
+    "Trusted: OpenSSL keygen/sign as reference. secp256k1 on GnuTLS is excluded from the 'works' clause (provider lacks it).",
+    "DESIGN.md 3/C09")
